@@ -41,17 +41,23 @@ Definition acc_base (addr u : Z) : Z := addr - addr mod u.
 Definition acc_bytes (len u : Z) : Z := u * (len / u).
 
 Definition mem_read (m : memory) (addr len u : Z) : list Z :=
-  map (fun i => if i <? acc_bytes len u then m (acc_base addr u + i) else 0) (zseq len).
+  let base := acc_base addr u in
+  let whole := acc_bytes len u in
+  map (fun i => if i <? whole then m (base + i) else 0) (zseq len).
 
 Definition mem_write (m : memory) (addr len u : Z) (data : list Z) : memory :=
-  fun a => let i := a - acc_base addr u in
-           if (0 <=? i) && (i <? acc_bytes len u) then nth (Z.to_nat i) data 0 else m a.
+  let base := acc_base addr u in
+  let whole := acc_bytes len u in
+  fun a => let i := a - base in
+           if (0 <=? i) && (i <? whole) then nth (Z.to_nat i) data 0 else m a.
 
 Definition word_byte (w k : Z) : Z := (w / 256 ^ k) mod 256.
 
 Definition mem_fill (m : memory) (addr word size : Z) : memory :=
-  fun a => let i := a - acc_base addr 4 in
-           if (0 <=? i) && (i <? acc_bytes size 4) then word_byte word (i mod 4) else m a.
+  let base := acc_base addr 4 in
+  let whole := acc_bytes size 4 in
+  fun a => let i := a - base in
+           if (0 <=? i) && (i <? whole) then word_byte word (i mod 4) else m a.
 
 Definition set_chip (M : machine) (c : chip) (m : memory) : machine :=
   fun c' => if chip_eqb c' c then m else M c'.
@@ -132,7 +138,7 @@ Fixpoint replay (buffer : Z) (nbr : chip -> Z -> chip) (M : machine) (tr : list 
 
 (* ---- the memories the harness starts from: a pattern with sparse overrides; the torus of the harness ---- *)
 Definition pattern_byte (seed : Z) (c : chip) (a : Z) : Z :=
-  (a * 167 + (a / 256) * 91 + fst c * 59 + snd c * 101 + seed * 13) mod 256.
+  Z.land (a * 167 + Z.shiftr a 8 * 91 + fst c * 59 + snd c * 101 + seed * 13) 255.
 
 Definition pattern_machine (seed : Z) (over : list (chip * list (Z * Z))) : machine :=
   fun c a => match cassoc c over with
@@ -140,7 +146,7 @@ Definition pattern_machine (seed : Z) (over : list (chip * list (Z * Z))) : mach
              | None => pattern_byte seed c a
              end.
 
-Definition data_byte (seed i : Z) : Z := (i * 73 + (i / 256) * 5 + seed * 29 + 11) mod 256.
+Definition data_byte (seed i : Z) : Z := Z.land (i * 73 + Z.shiftr i 8 * 5 + seed * 29 + 11) 255.
 Definition pattern_data (seed n : Z) : list Z := map (data_byte seed) (zseq n).
 
 (* links 0..5 = E, NE, N, W, SW, S on a w x h torus *)
@@ -151,7 +157,7 @@ Definition torus_nbr (w h : Z) (c : chip) (l : Z) : chip :=
 
 (* polynomial digest of a byte list (the harness computes the same in Python) *)
 Definition digest (l : list Z) : Z :=
-  fold_left (fun h b => (h * 257 + b + 1) mod 1000000007) l 0.
+  fold_left (fun h b => Z.land (h * 257 + b + 1) 1073741823) l 0.
 
 Definition probe (M : machine) (ps : list (chip * Z * Z)) : Z :=
   digest (flat_map (fun '(c, a, n) => map (fun i => M c (a + i)) (zseq n)) ps).
